@@ -21,7 +21,9 @@ REQUIRED = ['perm_invariant', 'perm_invariant_strata', 'perm_invariant_snm', 'pe
             'frame_perm_invariant', 'relabel_invariant', 'relabel_invariant_counts', 'iptw_weight_flip',
             'flip_treatment', 'flip_measures', 'flip_variance', 'flip_frame', 'stoch_invariant', 'outcome_affine',
             'outcome_affine_variance', 'tmle_unit_affine_pos', 'tmle_unit_affine_neg', 'tmle_ate_affine', 'snm_affine',
-            'snm1_affine', 'snm_flip', 'score_reparam', 'score_reparam_affine']
+            'snm1_affine', 'snm_flip', 'score_reparam', 'score_reparam_affine',
+            # Props/C08_Snm.lean: the regenerated lhm / rha of _closed_form_solver_ are the model's
+            'snm_generated', 'snm_resid_generated']
 RULE = ('pairs (data set, transformed data set) for each estimator class of the property: data = 2 categorical '
         'covariates + one continuous covariate X associated with treatment and outcome, binary or normal outcome, '
         'optionally MAR-missing outcomes (combined sample/target data for the generalize classes, wide 2-3 period '
